@@ -23,6 +23,7 @@ type Rec struct {
 	Op   int // op index (OpRec) or -1
 	Note string
 	Val  any // hook payloads etc.
+	Size int // encoded size in bytes (tx and rx packet records)
 }
 
 // OpRec is the execution record of one plan operation.
